@@ -1,11 +1,973 @@
 package main
 
+// End-to-end run of the repair procedure on the real code, everything on one
+// in-memory file system and the in-process channel transport:
+//
+//   NodeHost (1 replica) -> proposals -> membership history -> exported
+//   snapshot -> more proposals -> stop -> trials (tools.ImportSnapshot on a
+//   copy of the export with one file corrupted / deleted, or with a bad member
+//   list; the target data directory is digested before and after) -> the real
+//   import on every listed host -> restart -> membership, state, proposal.
+//
+// case line:
+//   <id> e2e sm=regular|concurrent|ondisk db=pebble|tan props=<n> hist=<op,op|->
+//        post=<0|1> old=<a=..;n=..;w=..;r=..> members=<map> | trial ; trial ...
+//   hist ops: nv3 (add non-voting 3), nv5rm5 (add non-voting 5, remove it),
+//             v2 (add voting 2: quorum is lost afterwards), w4 (add witness 4: ditto)
+//   trial:    <name> <corruption> <self> <raddr hex> <members map>
+//   corruptions: none del-snap extra-snap del-meta flip-meta:<k> trunc-meta
+//             flip-crc:<bit> flip-hdr:<k> flip-pad:<k> flip-payload:<k>
+//             flip-tail:<k> trunc:<k> append:<k> del-ext flip-ext:<k>
+// observations:
+//   <id> export OK old=<membership>
+//   <id> trial <n> <name> REFUSED|ACCEPTED
+//   <id> import <replica> OK|ERR
+//   <id> restart members=[..] nonvoting=[] witness=[] removed=[..] state=EXPORTED propose=OK
+
 import (
+	"bytes"
+	"context"
+	"crypto/sha256"
+	"fmt"
+	"io"
+	"path/filepath"
+	"sort"
+	"strings"
+	"sync"
+	"time"
+
+	"github.com/lni/dragonboat/v4"
+	"github.com/lni/dragonboat/v4/config"
+	chantrans "github.com/lni/dragonboat/v4/plugin/chan"
+	tanplugin "github.com/lni/dragonboat/v4/plugin/tan"
+	"github.com/lni/dragonboat/v4/raftio"
+	pb "github.com/lni/dragonboat/v4/raftpb"
+	sm "github.com/lni/dragonboat/v4/statemachine"
+	"github.com/lni/dragonboat/v4/tools"
+	hooks "github.com/lni/dragonboat/v4/verifhooks/c20"
 	"verif/harness/vh"
 )
 
-func genE2E(r *vh.Rand, i int, tier string) string { return "e2e skip" }
+const e2eShard = 1
+
+var outDir string
+
+// ---------------------------------------------------------------- transport
+
+type chanFactory struct{}
+
+func (chanFactory) Create(c config.NodeHostConfig, h raftio.MessageHandler, ch raftio.ChunkHandler) raftio.ITransport {
+	return chantrans.NewChanTransport(c, h, ch)
+}
+func (chanFactory) Validate(string) bool { return true }
+
+// ---------------------------------------------------------------- state machines
+
+// kv is the state shared by the three state machine flavours: a map with a
+// deterministic serialisation.
+type kv struct {
+	mu      sync.Mutex
+	m       map[string]string
+	applied uint64
+}
+
+func (k *kv) apply(cmd []byte, index uint64) {
+	k.mu.Lock()
+	defer k.mu.Unlock()
+	p := strings.SplitN(string(cmd), "=", 2)
+	if len(p) == 2 {
+		k.m[p[0]] = p[1]
+	}
+	k.applied = index
+}
+
+func (k *kv) dump() string {
+	k.mu.Lock()
+	defer k.mu.Unlock()
+	return dumpMap(k.m)
+}
+
+func dumpMap(m map[string]string) string {
+	ks := make([]string, 0, len(m))
+	for x := range m {
+		ks = append(ks, x)
+	}
+	sort.Strings(ks)
+	var sb strings.Builder
+	for _, x := range ks {
+		sb.WriteString(x + "=" + m[x] + "\n")
+	}
+	return sb.String()
+}
+
+func (k *kv) lookup(q interface{}) (interface{}, error) {
+	if s, ok := q.(string); ok && s == "dump" {
+		return k.dump(), nil
+	}
+	return nil, nil
+}
+
+func (k *kv) load(r io.Reader) error {
+	b, err := io.ReadAll(r)
+	if err != nil {
+		return err
+	}
+	m := map[string]string{}
+	for _, l := range strings.Split(string(b), "\n") {
+		if p := strings.SplitN(l, "=", 2); len(p) == 2 {
+			m[p[0]] = p[1]
+		}
+	}
+	k.mu.Lock()
+	k.m = m
+	k.mu.Unlock()
+	return nil
+}
+
+// regular state machine; its snapshots carry one external file
+type regSM struct {
+	kv
+	fs      hooks.FS
+	extDir  string
+	extErr  *string
+	withExt bool
+}
+
+func (s *regSM) Update(e sm.Entry) (sm.Result, error) {
+	s.apply(e.Cmd, e.Index)
+	return sm.Result{Value: e.Index}, nil
+}
+func (s *regSM) Lookup(q interface{}) (interface{}, error) { return s.lookup(q) }
+func (s *regSM) SaveSnapshot(w io.Writer, fc sm.ISnapshotFileCollection, _ <-chan struct{}) error {
+	d := s.dump()
+	if s.withExt { // external files are hard-linked with os.Link: real file system only
+		_ = s.fs.MkdirAll(s.extDir, 0755)
+		p := s.fs.PathJoin(s.extDir, fmt.Sprintf("ext-%d.dat", time.Now().UnixNano()))
+		writeFile(s.fs, p, []byte("EXT:"+d))
+		fc.AddFile(1, p, []byte("extmeta"))
+	}
+	_, err := io.WriteString(w, d)
+	return err
+}
+func (s *regSM) RecoverFromSnapshot(r io.Reader, files []sm.SnapshotFile, _ <-chan struct{}) error {
+	if err := s.load(r); err != nil {
+		return err
+	}
+	// the external file must have travelled with the image
+	if !s.withExt {
+		return nil
+	}
+	if len(files) != 1 {
+		*s.extErr = fmt.Sprintf("%d external files on recovery", len(files))
+	} else if got := string(readFile(s.fs, files[0].Filepath)); got != "EXT:"+s.dump() {
+		*s.extErr = "external file content differs from the snapshot"
+	}
+	return nil
+}
+func (s *regSM) Close() error { return nil }
+
+type concSM struct{ kv }
+
+func (s *concSM) Update(es []sm.Entry) ([]sm.Entry, error) {
+	for i := range es {
+		s.apply(es[i].Cmd, es[i].Index)
+		es[i].Result = sm.Result{Value: es[i].Index}
+	}
+	return es, nil
+}
+func (s *concSM) Lookup(q interface{}) (interface{}, error) { return s.lookup(q) }
+func (s *concSM) PrepareSnapshot() (interface{}, error)     { return s.dump(), nil }
+func (s *concSM) SaveSnapshot(c interface{}, w io.Writer, _ sm.ISnapshotFileCollection, _ <-chan struct{}) error {
+	_, err := io.WriteString(w, c.(string))
+	return err
+}
+func (s *concSM) RecoverFromSnapshot(r io.Reader, _ []sm.SnapshotFile, _ <-chan struct{}) error {
+	return s.load(r)
+}
+func (s *concSM) Close() error { return nil }
+
+// on-disk state machine: its "disk" is a registry that survives NodeHost
+// restarts inside the harness process, keyed by host directory.
+type diskImage struct {
+	m       map[string]string
+	applied uint64
+}
+
+var diskMu sync.Mutex
+var disks = map[string]*diskImage{}
+
+type diskSM struct {
+	kv
+	key string
+}
+
+func (s *diskSM) persist() {
+	s.mu.Lock()
+	c := map[string]string{}
+	for k, v := range s.m {
+		c[k] = v
+	}
+	a := s.applied
+	s.mu.Unlock()
+	diskMu.Lock()
+	disks[s.key] = &diskImage{m: c, applied: a}
+	diskMu.Unlock()
+}
+func (s *diskSM) Open(<-chan struct{}) (uint64, error) {
+	diskMu.Lock()
+	defer diskMu.Unlock()
+	if d, ok := disks[s.key]; ok {
+		s.m = map[string]string{}
+		for k, v := range d.m {
+			s.m[k] = v
+		}
+		s.applied = d.applied
+		return d.applied, nil
+	}
+	return 0, nil
+}
+func (s *diskSM) Update(es []sm.Entry) ([]sm.Entry, error) {
+	for i := range es {
+		s.apply(es[i].Cmd, es[i].Index)
+		es[i].Result = sm.Result{Value: es[i].Index}
+	}
+	s.persist()
+	return es, nil
+}
+func (s *diskSM) Lookup(q interface{}) (interface{}, error) { return s.lookup(q) }
+func (s *diskSM) Sync() error                                { return nil }
+func (s *diskSM) PrepareSnapshot() (interface{}, error)      { return s.dump(), nil }
+func (s *diskSM) SaveSnapshot(c interface{}, w io.Writer, _ <-chan struct{}) error {
+	_, err := io.WriteString(w, c.(string))
+	return err
+}
+func (s *diskSM) RecoverFromSnapshot(r io.Reader, _ <-chan struct{}) error {
+	if err := s.load(r); err != nil {
+		return err
+	}
+	s.persist()
+	return nil
+}
+func (s *diskSM) Close() error { return nil }
+
+// ---------------------------------------------------------------- NodeHost helpers
+
+type world struct {
+	disk   bool
+	fs     hooks.FS
+	root   string
+	smKind string
+	db     string
+	extErr string
+}
+
+func (w *world) nhConfig(dir, addr string) config.NodeHostConfig {
+	ex := config.GetDefaultExpertConfig()
+	ex.LogDB = config.GetTinyMemLogDBConfig()
+	ex.LogDB.Shards = 2
+	ex.FS = w.fs
+	ex.TransportFactory = chanFactory{}
+	ex.Engine = config.EngineConfig{ExecShards: 2, CommitShards: 2, ApplyShards: 2, SnapshotShards: 2, CloseShards: 2}
+	if w.db == "tan" {
+		ex.LogDBFactory = tanplugin.Factory
+		ex.LogDB.KVWriteBufferSize = 64 * 1024
+	}
+	return config.NodeHostConfig{NodeHostDir: dir, RTTMillisecond: 2, RaftAddress: addr, Expert: ex}
+}
+
+func shardConfig(replica uint64) config.Config {
+	return config.Config{ShardID: e2eShard, ReplicaID: replica, ElectionRTT: 10, HeartbeatRTT: 1,
+		SnapshotEntries: 0, CompactionOverhead: 2}
+}
+
+func (w *world) start(nh *dragonboat.NodeHost, dir string, replica uint64, initial map[uint64]string) error {
+	cfg := shardConfig(replica)
+	switch w.smKind {
+	case "concurrent":
+		return nh.StartConcurrentReplica(initial, false, func(uint64, uint64) sm.IConcurrentStateMachine {
+			return &concSM{kv{m: map[string]string{}}}
+		}, cfg)
+	case "ondisk":
+		return nh.StartOnDiskReplica(initial, false, func(uint64, uint64) sm.IOnDiskStateMachine {
+			return &diskSM{kv: kv{m: map[string]string{}}, key: dir}
+		}, cfg)
+	}
+	return nh.StartReplica(initial, false, func(uint64, uint64) sm.IStateMachine {
+		return &regSM{kv: kv{m: map[string]string{}}, fs: w.fs, extDir: w.root + "/ext", extErr: &w.extErr, withExt: w.disk}
+	}, cfg)
+}
+
+func waitLeader(nh *dragonboat.NodeHost, d time.Duration) bool {
+	dl := time.Now().Add(d)
+	for time.Now().Before(dl) {
+		if _, _, ok, err := nh.GetLeaderID(e2eShard); err == nil && ok {
+			return true
+		}
+		time.Sleep(5 * time.Millisecond)
+	}
+	return false
+}
+
+func ctxT(d time.Duration) (context.Context, context.CancelFunc) {
+	return context.WithTimeout(context.Background(), d)
+}
+
+func propose(nh *dragonboat.NodeHost, cmd string) error {
+	var err error
+	for i := 0; i < 40; i++ {
+		ctx, cancel := ctxT(2 * time.Second)
+		_, err = nh.SyncPropose(ctx, nh.GetNoOPSession(e2eShard), []byte(cmd))
+		cancel()
+		if err == nil {
+			return nil
+		}
+		time.Sleep(20 * time.Millisecond)
+	}
+	return err
+}
+
+func retry(f func(ctx context.Context) error) error {
+	var err error
+	for i := 0; i < 40; i++ {
+		ctx, cancel := ctxT(2 * time.Second)
+		err = f(ctx)
+		cancel()
+		if err == nil {
+			return nil
+		}
+		time.Sleep(20 * time.Millisecond)
+	}
+	return err
+}
+
+// ---------------------------------------------------------------- file system helpers
+
+func listTree(fs hooks.FS, dir string, out map[string][]byte) {
+	names, err := fs.List(dir)
+	if err != nil {
+		return
+	}
+	for _, n := range names {
+		p := fs.PathJoin(dir, n)
+		fi, err := fs.Stat(p)
+		if err != nil {
+			out[p] = []byte("?stat")
+			continue
+		}
+		if fi.IsDir() {
+			out[p+"/"] = nil
+			listTree(fs, p, out)
+		} else {
+			out[p] = readFile(fs, p)
+		}
+	}
+}
+
+// digest of every path and file content below dir (paths relative to dir)
+func digestTree(fs hooks.FS, dir string) string {
+	t := map[string][]byte{}
+	listTree(fs, dir, t)
+	ks := make([]string, 0, len(t))
+	for k := range t {
+		ks = append(ks, k)
+	}
+	sort.Strings(ks)
+	h := sha256.New()
+	for _, k := range ks {
+		fmt.Fprintf(h, "%s\x00%d\x00", strings.TrimPrefix(k, dir), len(t[k]))
+		h.Write(t[k])
+	}
+	return fmt.Sprintf("%x/%d", h.Sum(nil)[:8], len(ks))
+}
+
+// treeDiff names what differs between two listings of the same directory
+func treeDiff(dir string, a, b map[string][]byte) string {
+	var gone, added, changed []string
+	for k, v := range a {
+		if w, ok := b[k]; !ok {
+			gone = append(gone, strings.TrimPrefix(k, dir))
+		} else if !bytes.Equal(v, w) {
+			changed = append(changed, strings.TrimPrefix(k, dir))
+		}
+	}
+	for k := range b {
+		if _, ok := a[k]; !ok {
+			added = append(added, strings.TrimPrefix(k, dir))
+		}
+	}
+	sort.Strings(gone)
+	sort.Strings(added)
+	sort.Strings(changed)
+	ex := func(l []string) string {
+		if len(l) == 0 {
+			return ""
+		}
+		return " e.g. " + l[0]
+	}
+	return fmt.Sprintf("%d paths removed%s; %d added%s; %d changed%s", len(gone), ex(gone), len(added), ex(added), len(changed), ex(changed))
+}
+
+func copyTree(fs hooks.FS, src, dst string) {
+	if err := fs.MkdirAll(dst, 0755); err != nil {
+		panic(err)
+	}
+	names, err := fs.List(src)
+	if err != nil {
+		return
+	}
+	for _, n := range names {
+		p := fs.PathJoin(src, n)
+		fi, err := fs.Stat(p)
+		if err != nil {
+			continue
+		}
+		if fi.IsDir() {
+			copyTree(fs, p, fs.PathJoin(dst, n))
+		} else if n != "LOCK" {
+			writeFile(fs, fs.PathJoin(dst, n), readFile(fs, p))
+		} else {
+			writeFile(fs, fs.PathJoin(dst, n), nil)
+		}
+	}
+}
+
+func flipAt(b []byte, off int, bit uint) []byte {
+	c := append([]byte{}, b...)
+	if len(c) == 0 {
+		return c
+	}
+	if off < 0 {
+		off = 0
+	}
+	c[off%len(c)] ^= 1 << (bit % 8)
+	return c
+}
+
+// applyCorruption changes exactly one file of the copied export directory.
+// Offsets are relative to the region named by the corruption.
+func applyCorruption(fs hooks.FS, dir string, c string, ssFile string, extFile string) {
+	name, arg := c, 0
+	if i := strings.Index(c, ":"); i >= 0 {
+		name = c[:i]
+		arg = int(u64(c[i+1:]))
+	}
+	sp := fs.PathJoin(dir, ssFile)
+	mp := fs.PathJoin(dir, hooks.MetadataFilename)
+	switch name {
+	case "none":
+	case "del-snap":
+		_ = fs.RemoveAll(sp)
+	case "extra-snap":
+		writeFile(fs, fs.PathJoin(dir, "copy-of-"+ssFile), readFile(fs, sp))
+	case "del-meta":
+		_ = fs.RemoveAll(mp)
+	case "flip-meta":
+		writeFile(fs, mp, flipAt(readFile(fs, mp), arg, uint(arg)))
+	case "trunc-meta":
+		writeFile(fs, mp, readFile(fs, mp)[:4])
+	case "del-ext":
+		_ = fs.RemoveAll(fs.PathJoin(dir, extFile))
+	case "flip-ext":
+		ep := fs.PathJoin(dir, extFile)
+		writeFile(fs, ep, flipAt(readFile(fs, ep), arg, uint(arg)))
+	default:
+		b := readFile(fs, sp)
+		hdrLen := int(uint64(b[0]) | uint64(b[1])<<8) // marshaled header size (little endian, < 1016)
+		payloadEnd := len(b) - 16 - 4                  // one block: payload | crc(4) | tail(16)
+		switch name {
+		case "flip-crc":
+			b = flipAt(b, payloadEnd+arg%4, uint(arg/4))
+		case "flip-hdr": // length field, marshaled header, header crc
+			b = flipAt(b, arg%(8+hdrLen+4), uint(arg))
+		case "flip-pad": // the unused rest of the 1024 byte header block
+			pad := int(hooks.HeaderSize) - (8 + hdrLen + 4)
+			b = flipAt(b, 8+hdrLen+4+arg%pad, uint(arg))
+		case "flip-payload":
+			n := payloadEnd - int(hooks.HeaderSize)
+			if n > 0 {
+				b = flipAt(b, int(hooks.HeaderSize)+arg%n, uint(arg))
+			}
+		case "flip-tail":
+			b = flipAt(b, len(b)-16+arg%16, uint(arg))
+		case "trunc":
+			k := 1 + arg%(len(b)-1)
+			b = b[:len(b)-k]
+		case "append":
+			b = append(b, bytes.Repeat([]byte{0x5a}, 1+arg%9)...)
+		default:
+			panic("unknown corruption " + c)
+		}
+		writeFile(fs, sp, b)
+	}
+}
+
+// ---------------------------------------------------------------- the run
+
+type trial struct {
+	name, corruption string
+	self             uint64
+	raddr            string
+	members          map[uint64]string
+}
+
+func parseTrial(s string) trial {
+	f := strings.Fields(s)
+	return trial{name: f[0], corruption: f[1], self: u64(f[2]), raddr: string(vh.UnHex(f[3])), members: parseMap(f[4])}
+}
+
+func showOld(m pb.Membership) string {
+	return fmt.Sprintf("a=%s;n=%s;w=%s;r=%s", fmtMap(m.Addresses), fmtMap(m.NonVotings), fmtMap(m.Witnesses), fmtSet(m.Removed))
+}
+
+func addrOf(replica uint64) string { return fmt.Sprintf("a%d:1", replica) }
 
 func runE2E(id, rest string, obs *vh.LineWriter, st *vh.Stats, a vh.Args) {
-	obs.Printf("%s e2e SKIP\n", id)
+	if strings.HasPrefix(rest, "skip") {
+		obs.Printf("%s e2e SKIP\n", id)
+		return
+	}
+	var lines []string
+	out := func(format string, args ...interface{}) { lines = append(lines, fmt.Sprintf(id+" "+format, args...)) }
+	outDir, _ = filepath.Abs(a.Out)
+	p := vh.Catch(func() { e2e(id, rest, out, st) })
+	for _, l := range lines {
+		obs.Printf("%s\n", l)
+	}
+	if p != "" {
+		obs.Printf("%s e2e HARNESS-PANIC %s\n", id, strings.ReplaceAll(p, "\n", " "))
+	}
+}
+
+func e2e(id, rest string, out func(string, ...interface{}), st *vh.Stats) {
+	head, body := rest, ""
+	if i := strings.Index(rest, "|"); i >= 0 {
+		head, body = strings.TrimSpace(rest[:i]), strings.TrimSpace(rest[i+1:])
+	}
+	f := fields(head)
+	fs := hooks.NewMemFS()
+	w := &world{fs: fs, root: "/c20/" + id, smKind: f["sm"], db: f["db"]}
+	if f["fs"] == "disk" {
+		// the operating system's file system, below the run's output directory
+		fs = hooks.DefaultFS()
+		w.fs, w.disk = fs, true
+		w.root = outDir + "/e2e-" + id
+		_ = fs.RemoveAll(w.root)
+		defer func() { _ = fs.RemoveAll(w.root) }()
+	}
+	st.Count("e2e.fs." + map[bool]string{true: "disk", false: "mem"}[w.disk])
+	nprops := int(u64(f["props"]))
+	finalMembers := parseMap(f["members"])
+	st.Count("e2e.sm." + w.smKind)
+	st.Count("e2e.db." + w.db)
+
+	// ---- the shard before the loss of quorum
+	dir1 := w.root + "/nh1"
+	nhc1 := w.nhConfig(dir1, addrOf(1))
+	nh, err := dragonboat.NewNodeHost(nhc1)
+	if err != nil {
+		out("export FAILED newnodehost")
+		return
+	}
+	closed := false
+	defer func() {
+		if !closed {
+			nh.Close()
+		}
+	}()
+	if err := w.start(nh, dir1, 1, map[uint64]string{1: addrOf(1)}); err != nil {
+		out("export FAILED start")
+		return
+	}
+	if !waitLeader(nh, 10*time.Second) {
+		out("export FAILED noleader")
+		return
+	}
+	for i := 0; i < nprops; i++ {
+		if err := propose(nh, fmt.Sprintf("k%d=v%d", i, i)); err != nil {
+			out("export FAILED propose")
+			return
+		}
+	}
+	// a local snapshot: the host's existing data then has a snapshot directory
+	// and a snapshot record of its own
+	if err := retry(func(ctx context.Context) error {
+		_, e := nh.SyncRequestSnapshot(ctx, e2eShard, dragonboat.SnapshotOption{})
+		return e
+	}); err != nil {
+		out("export FAILED local-snapshot")
+		return
+	}
+	if err := propose(nh, "afterlocal=1"); err != nil {
+		out("export FAILED propose")
+		return
+	}
+	if f["hist"] != "-" && f["hist"] != "" {
+		for _, h := range strings.Split(f["hist"], ",") {
+			var err error
+			switch h {
+			case "nv3":
+				err = retry(func(ctx context.Context) error { return nh.SyncRequestAddNonVoting(ctx, e2eShard, 3, addrOf(3), 0) })
+			case "nv5rm5":
+				err = retry(func(ctx context.Context) error { return nh.SyncRequestAddNonVoting(ctx, e2eShard, 5, addrOf(5), 0) })
+				if err == nil {
+					err = retry(func(ctx context.Context) error { return nh.SyncRequestDeleteReplica(ctx, e2eShard, 5, 0) })
+				}
+			case "v2":
+				err = retry(func(ctx context.Context) error { return nh.SyncRequestAddReplica(ctx, e2eShard, 2, addrOf(2), 0) })
+			case "w4":
+				err = retry(func(ctx context.Context) error { return nh.SyncRequestAddWitness(ctx, e2eShard, 4, addrOf(4), 0) })
+			}
+			if err != nil {
+				out("export FAILED hist-%s", h)
+				return
+			}
+			st.Count("e2e.hist." + h)
+		}
+	}
+	exportDir := w.root + "/export"
+	_ = fs.MkdirAll(exportDir, 0755)
+	var index uint64
+	if err := retry(func(ctx context.Context) error {
+		var e error
+		index, e = nh.SyncRequestSnapshot(ctx, e2eShard, dragonboat.SnapshotOption{Exported: true, ExportPath: exportDir})
+		return e
+	}); err != nil {
+		out("export FAILED snapshot")
+		return
+	}
+	v, err := nh.StaleRead(e2eShard, "dump")
+	if err != nil {
+		out("export FAILED staleread")
+		return
+	}
+	exported := v.(string)
+	if f["post"] == "1" {
+		for i := 0; i < 3; i++ {
+			if err := propose(nh, fmt.Sprintf("post%d=lost", i)); err != nil {
+				out("export FAILED post-propose")
+				return
+			}
+		}
+	}
+	nh.Close()
+	closed = true
+
+	ssDirName := fmt.Sprintf("snapshot-%016X", index)
+	srcDir := fs.PathJoin(exportDir, ssDirName)
+	var oldss pb.Snapshot
+	if p := vh.Catch(func() { err = hooks.GetFlagFileContent(srcDir, hooks.MetadataFilename, &oldss, fs) }); p != "" || err != nil {
+		out("export FAILED metadata")
+		return
+	}
+	out("export OK old=%s", showOld(oldss.Membership))
+	ssFile := fs.PathBase(oldss.Filepath)
+	extFile := ""
+	if len(oldss.Files) > 0 {
+		extFile = fs.PathBase(oldss.Files[0].Filepath)
+	}
+	origPayload, _ := hooks.ReadSnapshotFile(fs.PathJoin(srcDir, ssFile), fs)
+
+	// ---- trials: one file of the export changed, or a bad member list
+	if body != "" {
+		for n, ts := range strings.Split(body, " ; ") {
+			t := parseTrial(ts)
+			if (t.corruption == "del-ext" || strings.HasPrefix(t.corruption, "flip-ext")) && extFile == "" {
+				out("trial %d %s NOEXT", n, t.name)
+				continue
+			}
+			xdir := fmt.Sprintf("%s/x%d/%s", w.root, n, ssDirName)
+			copyTree(fs, srcDir, xdir)
+			applyCorruption(fs, xdir, t.corruption, ssFile, extFile)
+			tdir := fmt.Sprintf("%s/t%d", w.root, n)
+			copyTree(fs, dir1, tdir) // the host's existing data
+			before := digestTree(fs, tdir)
+			beforeT := map[string][]byte{}
+			listTree(fs, tdir, beforeT)
+			xbefore := digestTree(fs, xdir)
+			var ierr error
+			pp := vh.Catch(func() { ierr = tools.ImportSnapshot(w.nhConfig(tdir, t.raddr), xdir, t.members, t.self) })
+			after := digestTree(fs, tdir)
+			refused := pp != "" || ierr != nil
+			st.Count("e2e.trial." + strings.SplitN(t.corruption, ":", 2)[0] + "." + map[bool]string{true: "refused", false: "accepted"}[refused])
+			if refused {
+				out("trial %d %s REFUSED", n, t.name)
+				if before != after {
+					kind := "error"
+					if pp != "" {
+						kind = "panic"
+					}
+					afterT := map[string][]byte{}
+					listTree(fs, tdir, afterT)
+					st.Violation(id, fmt.Sprintf("REFUSED-BUT-MODIFIED: import of %s refused (%s) after modifying the existing data directory (trial %s): %s",
+						t.corruption, kind, t.name, treeDiff(tdir, beforeT, afterT)))
+				}
+			} else {
+				out("trial %d %s ACCEPTED", n, t.name)
+				if strings.HasPrefix(t.corruption, "flip-ext") {
+					st.Violation(id, "EXT-FILE-CORRUPTION-UNDETECTED: a bit flipped in an external file of the export is accepted by ImportSnapshot (external files carry no checksum)")
+				}
+				if t.corruption != "none" {
+					// accepted although a file was changed: the image must then read back
+					// as exported, or fail to read - never silently as something else
+					cfgT := w.nhConfig(tdir, t.raddr)
+					_ = cfgT.Prepare()
+					var got []byte
+					var rerr error
+					imported := findFile(fs, tdir, ssFile)
+					rp := vh.Catch(func() { got, rerr = hooks.ReadSnapshotFile(imported, fs) })
+					if rp == "" && rerr == nil && !bytes.Equal(got, origPayload) {
+						st.Violation(id, fmt.Sprintf("CORRUPT-IMAGE-LOADS: %s accepted and the imported image reads back different bytes without an error", t.corruption))
+					}
+					st.Count("e2e.accepted-corrupt." + map[bool]string{true: "caught-on-read", false: "reads-identical"}[rp != "" || rerr != nil])
+				}
+			}
+			if digestTree(fs, xdir) != xbefore {
+				st.Violation(id, "ImportSnapshot modified the exported directory")
+			}
+			_ = fs.RemoveAll(tdir)
+			_ = fs.RemoveAll(fmt.Sprintf("%s/x%d", w.root, n))
+		}
+	}
+
+	// ---- the repair: import on every listed host, restart
+	ids := make([]uint64, 0, len(finalMembers))
+	for k := range finalMembers {
+		ids = append(ids, k)
+	}
+	sort.Slice(ids, func(i, j int) bool { return ids[i] < ids[j] })
+	dirs := map[uint64]string{}
+	for _, k := range ids {
+		dirs[k] = fmt.Sprintf("%s/nh%d", w.root, k) // replica 1 keeps its directory with the old data
+		var ierr error
+		pp := vh.Catch(func() { ierr = tools.ImportSnapshot(w.nhConfig(dirs[k], finalMembers[k]), srcDir, finalMembers, k) })
+		if pp != "" || ierr != nil {
+			out("import %d ERR", k)
+			st.Violation(id, fmt.Sprintf("IMPORT-FAILED: import of an intact export with a valid member list failed on replica %d: %v %s", k, ierr, pp))
+			return
+		}
+		out("import %d OK", k)
+	}
+	hosts := map[uint64]*dragonboat.NodeHost{}
+	defer func() {
+		for _, h := range hosts {
+			h.Close()
+		}
+	}()
+	for _, k := range ids {
+		h, err := dragonboat.NewNodeHost(w.nhConfig(dirs[k], finalMembers[k]))
+		if err != nil {
+			out("restart FAILED newnodehost %d", k)
+			st.Violation(id, "RESTART-FAILED: NewNodeHost after import: "+err.Error())
+			return
+		}
+		hosts[k] = h
+		if err := w.start(h, dirs[k], k, nil); err != nil {
+			out("restart FAILED start %d", k)
+			st.Violation(id, "RESTART-FAILED: start replica after import: "+err.Error())
+			return
+		}
+	}
+	first := hosts[ids[0]]
+	if !waitLeader(first, 20*time.Second) {
+		out("restart FAILED noleader")
+		st.Violation(id, "NO-LEADER: the repaired shard did not elect a leader")
+		return
+	}
+	var ms *dragonboat.Membership
+	if err := retry(func(ctx context.Context) error {
+		var e error
+		ms, e = first.SyncGetShardMembership(ctx, e2eShard)
+		return e
+	}); err != nil {
+		out("restart FAILED membership")
+		st.Violation(id, "membership query failed after repair: "+err.Error())
+		return
+	}
+	removed := map[uint64]bool{}
+	for k := range ms.Removed {
+		removed[k] = true
+	}
+	// every replica's state = the exported state
+	state := "EXPORTED"
+	for _, k := range ids {
+		var got interface{}
+		if err := retry(func(ctx context.Context) error {
+			var e error
+			got, e = hosts[k].SyncRead(ctx, e2eShard, "dump")
+			return e
+		}); err != nil {
+			state = fmt.Sprintf("READ-FAILED-%d", k)
+			break
+		}
+		if got.(string) != exported {
+			state = fmt.Sprintf("DIFFERENT-%d", k)
+			break
+		}
+	}
+	prop := "OK"
+	if err := propose(hosts[ids[len(ids)-1]], "after=repair"); err != nil {
+		prop = "FAILED"
+	} else {
+		var got interface{}
+		_ = retry(func(ctx context.Context) error {
+			var e error
+			got, e = first.SyncRead(ctx, e2eShard, "dump")
+			return e
+		})
+		if s, ok := got.(string); !ok || !strings.Contains(s, "after=repair\n") {
+			prop = "NOT-APPLIED"
+		}
+	}
+	out("restart members=%s nonvoting=%s witness=%s removed=%s state=%s propose=%s",
+		showMap(ms.Nodes), showMap(ms.NonVotings), showMap(ms.Witnesses), showSet(removed), state, prop)
+	// ---- monitor: the property's statement
+	if showMap(ms.Nodes) != showMap(finalMembers) || len(ms.NonVotings) != 0 || len(ms.Witnesses) != 0 {
+		st.Violation(id, "MEMBERSHIP: membership after repair is not the given list: "+showMap(ms.Nodes))
+	}
+	want := map[uint64]bool{}
+	for k := range oldss.Membership.Removed {
+		want[k] = true
+	}
+	for _, m := range []map[uint64]string{oldss.Membership.Addresses, oldss.Membership.NonVotings, oldss.Membership.Witnesses} {
+		for k := range m {
+			if _, ok := finalMembers[k]; !ok {
+				want[k] = true
+			}
+		}
+	}
+	if showSet(want) != showSet(removed) {
+		st.Violation(id, fmt.Sprintf("REMOVED: removed set after repair %s, expected %s", showSet(removed), showSet(want)))
+	}
+	if state != "EXPORTED" {
+		st.Violation(id, "STATE: a replica's state after repair is not the exported state: "+state)
+	}
+	if prop != "OK" {
+		st.Violation(id, "PROPOSE: the repaired shard does not accept proposals: "+prop)
+	}
+	if w.extErr != "" {
+		st.Violation(id, "EXTFILE: "+w.extErr)
+	}
+	st.Case("e2e "+head, true, id+" e2e "+head)
+}
+
+func findFile(fs hooks.FS, dir, name string) string {
+	t := map[string][]byte{}
+	listTree(fs, dir, t)
+	for p := range t {
+		if strings.HasSuffix(p, "/"+name) {
+			return p
+		}
+	}
+	return ""
+}
+
+// ---------------------------------------------------------------- gen
+
+func genE2E(r *vh.Rand, i int, tier string) string {
+	sms := []string{"regular", "ondisk", "concurrent"}
+	dbs := []string{"pebble", "tan"}
+	smK := sms[i%3]
+	db := dbs[i%2]
+	// history and resulting membership of the export
+	old := pb.Membership{Addresses: map[uint64]string{1: addrOf(1)}, NonVotings: map[uint64]string{}, Witnesses: map[uint64]string{}, Removed: map[uint64]bool{}}
+	var hist []string
+	if i%2 == 0 || r.Bool() {
+		hist = append(hist, "nv5rm5")
+		old.Removed[5] = true
+	}
+	if i%2 == 0 || r.Bool() {
+		hist = append(hist, "nv3")
+		old.NonVotings[3] = addrOf(3)
+	}
+	post := 1
+	switch (i / 2) % 3 {
+	case 0:
+		hist = append(hist, "v2")
+		old.Addresses[2] = addrOf(2)
+		post = 0
+	case 1:
+		hist = append(hist, "w4")
+		old.Witnesses[4] = addrOf(4)
+		post = 0
+	}
+	hs := "-"
+	if len(hist) > 0 {
+		hs = strings.Join(hist, ",")
+	}
+	// the new member list: single old member / old + new / entirely new
+	var members map[uint64]string
+	switch i % 3 {
+	case 0:
+		members = map[uint64]string{1: addrOf(1)}
+	case 1:
+		members = map[uint64]string{1: addrOf(1), 6: addrOf(6), 7: addrOf(7)}
+	default:
+		members = map[uint64]string{6: addrOf(6), 7: addrOf(7)}
+	}
+	self := uint64(1)
+	if _, ok := members[1]; !ok {
+		self = 6
+	}
+	tr := func(name, corruption string, self uint64, raddr string, m map[uint64]string) string {
+		return fmt.Sprintf("%s %s %d %s %s", name, corruption, self, vh.Hex([]byte(raddr)), fmtMap(m))
+	}
+	with := func(k uint64, a string) map[uint64]string {
+		m := map[uint64]string{}
+		for x, y := range members {
+			m[x] = y
+		}
+		m[k] = a
+		return m
+	}
+	var trials []string
+	good := func(name, c string) { trials = append(trials, tr(name, c, self, members[self], members)) }
+	// every single-file corruption class of the exported directory
+	good("intact", "none")
+	good("del-snap", "del-snap")
+	good("extra-snap", "extra-snap")
+	good("del-meta", "del-meta")
+	good("trunc-meta", "trunc-meta")
+	good("flip-meta", fmt.Sprintf("flip-meta:%d", r.Intn(4000)))
+	good("flip-crc", fmt.Sprintf("flip-crc:%d", r.Intn(32)))
+	good("flip-hdr", fmt.Sprintf("flip-hdr:%d", r.Intn(4000)))
+	good("flip-pad", fmt.Sprintf("flip-pad:%d", r.Intn(4000)))
+	good("flip-payload", fmt.Sprintf("flip-payload:%d", r.Intn(4000)))
+	good("flip-tail", fmt.Sprintf("flip-tail:%d", r.Intn(128)))
+	good("trunc", fmt.Sprintf("trunc:%d", r.Intn(4000)))
+	good("append", fmt.Sprintf("append:%d", r.Intn(9)))
+	fsK := "mem"
+	if smK == "regular" {
+		fsK = "disk"
+		good("del-ext", "del-ext")
+		good("flip-ext", fmt.Sprintf("flip-ext:%d", r.Intn(4000)))
+	}
+	if tier == "thorough" {
+		for k := 0; k < 12; k++ {
+			good("flip-crc", fmt.Sprintf("flip-crc:%d", k*3%32))
+			good("flip-hdr", fmt.Sprintf("flip-hdr:%d", r.Intn(100000)))
+			good("flip-meta", fmt.Sprintf("flip-meta:%d", r.Intn(100000)))
+			good("flip-payload", fmt.Sprintf("flip-payload:%d", r.Intn(100000)))
+			good("trunc", fmt.Sprintf("trunc:%d", r.Intn(100000)))
+		}
+	}
+	// bad member lists on the intact export
+	trials = append(trials, tr("not-listed", "none", 9, addrOf(9), members))
+	trials = append(trials, tr("other-address", "none", self, "elsewhere:1", members))
+	if old.Removed[5] {
+		trials = append(trials, tr("readmit-removed", "none", self, members[self], with(5, addrOf(5))))
+	}
+	if _, ok := old.NonVotings[3]; ok {
+		trials = append(trials, tr("nonvoting-as-member", "none", self, members[self], with(3, addrOf(3))))
+	}
+	if _, ok := old.Witnesses[4]; ok {
+		trials = append(trials, tr("witness-as-member", "none", self, members[self], with(4, addrOf(4))))
+	}
+	if _, ok := old.Addresses[2]; ok {
+		trials = append(trials, tr("moved-member", "none", self, members[self], with(2, "moved:1")))
+	}
+	if _, ok := members[1]; !ok {
+		trials = append(trials, tr("moved-self", "none", 1, "moved:1", with(1, "moved:1")))
+	}
+	return fmt.Sprintf("e2e sm=%s db=%s fs=%s props=%d hist=%s post=%d old=%s members=%s | %s",
+		smK, db, fsK, 3+r.Intn(20), hs, post, showOld(old), fmtMap(members), strings.Join(trials, " ; "))
 }
